@@ -193,6 +193,9 @@ def run(chk, prog, tier):
     run_laws(chk, prog)
     run_inverse(chk, prog)
     run_scalar_last(chk, prog)
+    # ... and the matrix both classes expose for a scalar-last object is the matrix of the same quaternion stored scalar-first (rule shared with C01)
+    from props.c01 import scalar_last_routes
+    scalar_last_routes(chk, prog)
     chk.require_count("STORAGE.accessor", 5)
     chk.require_count("IDENT.inverse", 2)
     canaries(chk, prog)
